@@ -114,6 +114,7 @@ def handle (toks : List String) : String :=
           let aggOk := ["mean", "median", "min", "max"].contains (← get kv "aggfunc")
           pure (compositeEntry k sh (← parseY? (← get kv "y")) (← parseFh? (← get kv "fh")) aggOk
             (← parseBool? (← get kv "predict")))
+      | "static" => none
       | "fh" => do
           let via := (← get kv "via") == "ctor"
           let rel ← get kv "rel"
@@ -122,7 +123,12 @@ def handle (toks : List String) : String :=
       | _ => none
     match r with
     | some o => showOutcome o
-    | none => "bad-op"
+    | none =>
+      if ep == "static" then
+        match (get kv "fn").bind entryChecksOf with
+        | some v => v
+        | none => "bad-op"
+      else "bad-op"
   | _ => "bad-op"
 
 end SkVerif.Drv.C20
